@@ -9,6 +9,91 @@ from ..symeval import Obj, PureInterp, Raised, Unsupported, tok
 PROJ = tok("PROJ")
 
 
+def make_instance(ctx, ci, _name="obj", _interp=None, **given):
+    """A symbolic instance of a repository class: the attributes given, every other declared field at its declared default / factory value
+    (so a field added for bookkeeping - a dirty flag, a cache, a counter - exists, as it would after the real constructor)."""
+    interp = _interp or PureInterp(ctx)
+    o = Obj(_name, **{"__class__": ci})
+    try:
+        interp._bind_fields(o, ci, (), {k.lstrip("_"): v for k, v in given.items()})
+    except Exception:
+        pass
+    for k, v in given.items():
+        setattr(o, k, v)
+    return o
+
+
+def make_target(ctx, name, spec="", options=None, inputs=None, outputs=None, working_dir="/w", **more):
+    return make_instance(ctx, ctx.index.cls("gwf.core:Target"), "target", name=name, spec=spec, options=dict(options or {}), inputs=list(inputs or []),
+                         outputs=list(outputs or []), working_dir=working_dir, protect=set(), group=None, **more)
+
+
+def target_obj(ctx, **kw):
+    """A target stand-in without class (its methods are hooks of the witness that uses it) that nevertheless carries every attribute a real Target
+    has: the fields of gwf.core.Target at their declared defaults, then the usual ones, then what the witness gives."""
+    cache = ctx.shared.setdefault("_target_defaults", {})
+    if "v" not in cache:
+        try:
+            tmp = make_instance(ctx, ctx.index.cls("gwf.core:Target"), "target")
+            cache["v"] = {k: v for k, v in tmp.__dict__["_attrs"].items() if k != "__class__" and not k.startswith("_args") and not k.startswith("_kwargs")}
+        except Exception:
+            cache["v"] = {}
+    import copy
+    attrs = copy.deepcopy(cache["v"])
+    attrs.update(spec="", options={}, inputs=[], outputs=[], working_dir="/w", protect=set(), group=None)
+    attrs.update(kw)
+    return Obj("target", **attrs)
+
+
+def click_defaults(ctx, fn):
+    """{parameter name: value click passes when the option/argument is not given} read from the command's click.option / click.argument decorators."""
+    idx = ctx.index
+    out = {}
+    for d in fn.node.decorator_list:
+        if not isinstance(d, ast.Call):
+            continue
+        canon = idx.canon(d.func, fn.module) or ""
+        if canon not in ("click.option", "click.argument"):
+            continue
+        names = [a.value for a in d.args if isinstance(a, ast.Constant) and isinstance(a.value, str)]
+        kw = {k.arg: k.value for k in d.keywords if k.arg}
+
+        def const(node, dflt):
+            if node is None:
+                return dflt
+            try:
+                return ctx.ev.eval(node, fn.module)
+            except Exception:
+                return dflt
+        bare = [n for n in names if not n.startswith("-")]
+        longs = [n for n in names if n.startswith("--")]
+        shorts = [n for n in names if n.startswith("-") and not n.startswith("--")]
+        pname = bare[0] if bare else (max(longs, key=len)[2:] if longs else shorts[0][1:] if shorts else None)
+        if pname is None:
+            continue
+        pname = pname.split("/")[0].strip().replace("-", "_").lower()
+        if canon == "click.argument":
+            out[pname] = () if const(kw.get("nargs"), 1) == -1 else const(kw.get("default"), None)
+        else:
+            is_flag = const(kw.get("is_flag"), False) or any("/" in n for n in longs)
+            multiple = const(kw.get("multiple"), False)
+            out[pname] = const(kw.get("default"), False if is_flag else (() if multiple else None))
+    return out
+
+
+def call_command(ctx, interp, fn, args):
+    """Call a click command body with `args` bound positionally and every further parameter set to what click passes when the option is not given
+    (a new option with a default leaves the evaluated invocations meaningful)."""
+    names = fn.positional_params()
+    extra = {}
+    if len(names) > len(args):
+        dflt = click_defaults(ctx, fn)
+        for n in names[len(args):]:
+            if n in dflt:
+                extra[n] = dflt[n]
+    return interp.call(fn, tuple(args), extra)
+
+
 def file_hooks(events, disk=None):
     """Hooks modelling open/json.dump/json.load/os.replace as recorded events."""
     def h_open(path, mode="r", *a, **k):
@@ -59,7 +144,7 @@ def eval_submit(ctx, id_a=None, id_b=None):
     m = ctx.index.method(tb, "submit")
     deps = [Obj("dep", name="A"), Obj("dep", name="B")]
     try:
-        interp.call(m, (Obj("target", name="T"), deps), {}, self_obj=obj)
+        interp.call(m, (target_obj(ctx, name="T"), deps), {}, self_obj=obj)
     except (Raised, Unsupported) as exc:
         return None, f"{exc}", m
     return (captured, dict(obj._tracked_jobs), dict(obj._job_states)), None, m
@@ -72,12 +157,12 @@ def eval_status(ctx):
     out = {}
     for name in ("T", "U"):
         try:
-            out[name] = interp.call(m, (Obj("target", name=name),), {}, self_obj=obj)
+            out[name] = interp.call(m, (target_obj(ctx, name=name),), {}, self_obj=obj)
         except (Raised, Unsupported) as exc:
             out[name] = f"<{exc}>"
     tb2, obj2 = tracking_backend(ctx, {"T": tok("ID")}, {})
     try:
-        out["nostate"] = interp.call(m, (Obj("target", name="T"),), {}, self_obj=obj2)
+        out["nostate"] = interp.call(m, (target_obj(ctx, name="T"),), {}, self_obj=obj2)
     except (Raised, Unsupported) as exc:
         out["nostate"] = f"<{exc}>"
     return out, m
@@ -93,7 +178,7 @@ def eval_cancel(ctx):
         got = []
         interp = PureInterp(ctx, hooks={"attr:cancel_job": lambda recv, jid: got.append(jid)})
         try:
-            interp.call(m, (Obj("target", name="T"),), {}, self_obj=obj)
+            interp.call(m, (target_obj(ctx, name="T"),), {}, self_obj=obj)
             res[st] = list(got)
         except Raised as exc:
             res[st] = f"raises {exc.kind}"
@@ -106,7 +191,7 @@ def eval_cancel(ctx):
         raise Raised("BackendError", "cancel refused")
     interp = PureInterp(ctx, hooks={"attr:cancel_job": refuse})
     try:
-        interp.call(m, (Obj("target", name="T"),), {}, self_obj=obj)
+        interp.call(m, (target_obj(ctx, name="T"),), {}, self_obj=obj)
         res["refused"] = ("no error", dict(obj._tracked_jobs))
     except Raised as exc:
         res["refused"] = (exc.kind, dict(obj._tracked_jobs))
@@ -117,7 +202,7 @@ def eval_cancel(ctx):
     got0 = []
     interp = PureInterp(ctx, hooks={"attr:cancel_job": lambda recv, jid: got0.append(jid)})
     try:
-        interp.call(m, (Obj("target", name="T"),), {}, self_obj=obj)
+        interp.call(m, (target_obj(ctx, name="T"),), {}, self_obj=obj)
         res["zero"] = list(got0)
     except Raised as exc:
         res["zero"] = f"raises {exc.kind}"
@@ -126,7 +211,7 @@ def eval_cancel(ctx):
     _tb, obj = tracking_backend(ctx, {"T": tok("ID")}, {})
     interp = PureInterp(ctx, hooks={"attr:cancel_job": lambda recv, jid: None})
     try:
-        interp.call(m, (Obj("target", name="NEVER"),), {}, self_obj=obj)
+        interp.call(m, (target_obj(ctx, name="NEVER"),), {}, self_obj=obj)
         res["untracked"] = "no error"
     except Raised as exc:
         res["untracked"] = exc.kind
@@ -161,8 +246,7 @@ def store_object(ctx, ckey, attr, table):
     else:
         attrs.update(path=PROJ + "/.gwf/spec-hashes.json")
     attrs[attr] = dict(table)
-    attrs["__class__"] = ci
-    return ci, Obj("store", **attrs)
+    return ci, make_instance(ctx, ci, "store", **attrs)
 
 
 def eval_close(ctx, ckey, attr, table, script=(), disk=None):
@@ -175,7 +259,7 @@ def eval_close(ctx, ckey, attr, table, script=(), disk=None):
     interp.events = events
     try:
         for meth, tname in script:
-            args = (Obj("target", name=tname, spec=tok("SPEC_" + tname)),) + (([],) if meth == "submit" else ())
+            args = (target_obj(ctx, name=tname, spec=tok("SPEC_" + tname)),) + (([],) if meth == "submit" else ())
             interp.call(ctx.index.method(ci, meth), args, {}, self_obj=obj)
         interp.call(ctx.index.method(ci, "close"), (), {}, self_obj=obj)
     except (Raised, Unsupported) as exc:
@@ -265,8 +349,8 @@ def eval_local_job_states(ctx):
 
 
 # ---------------------------------------------------------------------------- dependency graph witnesses
-def _mk_targets(spec, order):
-    objs = {name: Obj("target", name=name, _ins=list(ins), _outs=list(outs)) for name, (ins, outs) in spec.items()}
+def _mk_targets(ctx, spec, order):
+    objs = {name: target_obj(ctx, name=name, _ins=list(ins), _outs=list(outs)) for name, (ins, outs) in spec.items()}
     return objs, [objs[n] for n in order]
 
 
@@ -275,7 +359,7 @@ def eval_graph(ctx, spec, order, existing):
     idx = ctx.index
     gcls = idx.cls("gwf.core:Graph")
     ft = idx.method(gcls, "from_targets")
-    objs, tlist = _mk_targets(spec, order)
+    objs, tlist = _mk_targets(ctx, spec, order)
     hooks = {
         "attr:flattened_inputs": lambda recv, *a: list(recv._ins),
         "attr:flattened_outputs": lambda recv, *a: list(recv._outs),
@@ -420,16 +504,10 @@ def eval_spec_store(ctx):
     """Scenario evaluation of FileSpecHashes.has_changed / update / invalidate and hash_spec; returns [(step, got, expected-description, ok)]."""
     idx = ctx.index
     ci = idx.cls("gwf.core:FileSpecHashes")
-    attrs = {"path": PROJ + "/.gwf/spec-hashes.json", "hashes": {}, "__class__": ci}
-    for name, _ann, value in ci.fields:
-        if isinstance(value, ast.Call):
-            for k in value.keywords:
-                if k.arg == "default" and isinstance(k.value, ast.Constant):
-                    attrs.setdefault(name, k.value.value)
-    store = Obj("store", **attrs)
+    store = make_instance(ctx, ci, "store", path=PROJ + "/.gwf/spec-hashes.json", hashes={})
     interp = PureInterp(ctx, hooks=dict(HASH_HOOKS))
-    T = Obj("target", name="T", spec="echo one")
-    U = Obj("target", name="U", spec="echo one")
+    T = make_target(ctx, "T", "echo one", {"memory": "4g"})
+    U = make_target(ctx, "U", "echo one", {"memory": "4g"})
     steps = []
 
     def call(meth, target):
@@ -438,9 +516,11 @@ def eval_spec_store(ctx):
         except Raised as exc:
             return f"<raises {exc.kind}>"
         except Unsupported as exc:
-            return f"<{exc}>"
+            return Ellipsis
 
     def step(name, got, ok, want):
+        if got is Ellipsis or (isinstance(got, tuple) and Ellipsis in got):
+            return      # not evaluable: no verdict from this step
         steps.append((name, got, want, ok))
 
     g = call("has_changed", T); step("never recorded target", g, g is not None and not str(g).startswith("<"), "changed (not None)")
@@ -453,6 +533,23 @@ def eval_spec_store(ctx):
     g = call("invalidate", T); step("invalidate(T)", g, g is None, "no error")
     g = call("has_changed", T); step("T after invalidate(T)", g, g is not None and not str(g).startswith("<"), "changed (record erased)")
     g = call("invalidate", T); step("invalidate(T) again (no record)", g, g is None, "no error")
+    # the record made by an accepted submission is the one a LATER invocation computes for the unchanged target (submit_backend rewrites
+    # target.options with the backend defaults before it records: whatever the hash covers must not depend on that)
+    sb = idx.func("gwf.scheduling:submit_backend")
+    store2 = make_instance(ctx, ci, "store", path=PROJ + "/.gwf/spec-hashes.json", hashes={})
+    S1 = make_target(ctx, "S", "echo s", {"memory": "4g", "walltime": None})
+    backend = Obj("backend", target_defaults={"cores": 1, "memory": "1g", "walltime": "01:00:00", "queue": None})
+    interp2 = PureInterp(ctx, hooks=dict(HASH_HOOKS, **{"attr:submit": lambda recv, t, dependencies=None, **k: None}))
+    try:
+        interp2.call(sb, (S1, []), {"backend": backend, "spec_hashes": store2})
+        S2 = make_target(ctx, "S", "echo s", {"memory": "4g", "walltime": None})
+        g = interp2.call(idx.method(ci, "has_changed"), (S2,), {}, self_obj=store2)
+        step("the unchanged target S in the invocation after its accepted submission", g, g is None,
+             "unchanged (None): the hash recorded at submission is the one computed from the workflow file later")
+    except Raised as exc:
+        step("submit_backend(S) then has_changed(S) in the next invocation", f"<raises {exc.kind}: {exc.detail[:60]}>", False, "unchanged (None)")
+    except Unsupported as exc:
+        pass
     hs = idx.func("gwf.core:hash_spec")
     try:
         h1, h2, h1b = (interp.call(hs, (s_,)) for s_ in ("a", "b", "a"))
@@ -708,7 +805,7 @@ def eval_cancel_command(ctx, patterns=(), force=False, fail=None):
     idx = ctx.index
     cc = idx.func("gwf.plugins.cancel:cancel")
     events = []
-    all_targets = [Obj("target", name=n) for n in ("A", "B", "C")]
+    all_targets = [target_obj(ctx, name=n) for n in ("A", "B", "C")]
     selected = [all_targets[0], all_targets[2]]
     graph = GraphTok(all_targets)
     fail = dict(fail or {})
@@ -740,7 +837,7 @@ def eval_cancel_command(ctx, patterns=(), force=False, fail=None):
     interp = PureInterp(ctx, hooks=hooks)
     out = {"events": events, "raised": None}
     try:
-        interp.call(cc, (Obj("ctx", backend="B", working_dir=PROJ, config={}), tuple(patterns), force))
+        call_command(ctx, interp, cc, (Obj("ctx", backend="B", working_dir=PROJ, config={}), tuple(patterns), force))
     except Raised as exc:
         out["raised"] = exc.kind
     except Unsupported as exc:
@@ -829,7 +926,7 @@ def eval_should_run(ctx, inputs, outputs, spec_changed=False):
             raise Raised("FileNotFoundError", path)
         return files[path]
 
-    target = Obj("target", name="T", inputs=list(inputs), outputs=list(outputs))
+    target = target_obj(ctx, name="T", inputs=list(inputs), outputs=list(outputs))
     hooks = {"attr:exists": h_exists, "attr:changed_at": h_changed_at,
              "attr:flattened_inputs": lambda recv: list(inputs), "attr:flattened_outputs": lambda recv: list(outputs),
              "attr:has_changed": lambda recv, t: ("H" if spec_changed else None)}
@@ -1048,7 +1145,7 @@ def eval_local_client(ctx):
     out = {}
     answers.append(_json.dumps({"__kind__": "task_enqueued", "tid": 55}) + "\n")
     try:
-        out["submit"] = interp.call(idx.method(ops_ci, "submit_target"), (Obj("target", name="N", spec="S", working_dir="/w"), [0, 3]), {}, self_obj=ops)
+        out["submit"] = interp.call(idx.method(ops_ci, "submit_target"), (target_obj(ctx, name="N", spec="S", working_dir="/w"), [0, 3]), {}, self_obj=ops)
     except (Raised, Unsupported) as exc:
         out["submit"] = f"<{type(exc).__name__}: {exc}>"
     out["submit_sent"] = list(sent)
@@ -1299,7 +1396,7 @@ def eval_schedule(ctx, deps, states, stale, endpoints):
     deps: {name: [direct dependency names]}, states: {name: BackendStatus member}, stale: set of names for which should_run is True.
     Returns ({name: Status member}, [(submitted name, [prerequisite names])]) or an error string."""
     sch = ctx.index.func("gwf.scheduling:schedule")
-    T = {n: Obj("target", name=n) for n in deps}
+    T = {n: target_obj(ctx, name=n) for n in deps}
     graph = Obj("graph", dependencies={T[n]: {T[d] for d in ds} for n, ds in deps.items()})
     submitted = []
 
@@ -1427,9 +1524,9 @@ TOUCH_PROJECT = {
 }
 
 
-def _witness_graph(WITNESS_PROJECT=None):
+def _witness_graph(ctx, WITNESS_PROJECT=None):
     WITNESS_PROJECT = WITNESS_PROJECT or globals()["WITNESS_PROJECT"]
-    T = {n: Obj("target", name=n) for n in WITNESS_PROJECT}
+    T = {n: target_obj(ctx, name=n) for n in WITNESS_PROJECT}
     graph = GraphTok(T[n] for n in WITNESS_PROJECT)
     deps = {T[n]: {T[d] for d in v[0]} for n, v in WITNESS_PROJECT.items()}
     dependents = {T[n]: {T[m] for m, v in WITNESS_PROJECT.items() if n in v[0]} for n in WITNESS_PROJECT}
@@ -1450,7 +1547,7 @@ def _witness_graph(WITNESS_PROJECT=None):
 
 def eval_clean_command(ctx, targets=(), all_=False, force=False, decline=False):
     fn = ctx.index.func("gwf.plugins.clean:clean")
-    T, graph, hooks = _witness_graph()
+    T, graph, hooks = _witness_graph(ctx)
     events = []
 
     def h_confirm(*a, **k):
@@ -1480,7 +1577,7 @@ def eval_clean_command(ctx, targets=(), all_=False, force=False, decline=False):
     interp.max_depth = 10
     out = {"events": events, "raised": None}
     try:
-        interp.call(fn, (Obj("ctx", working_dir="/p", config={}, backend="B"), tuple(targets), all_, force))
+        call_command(ctx, interp, fn, (Obj("ctx", working_dir="/p", config={}, backend="B"), tuple(targets), all_, force))
     except Raised as exc:
         out["raised"] = exc.kind
     except Unsupported as exc:
@@ -1544,7 +1641,7 @@ def clean_command_witness(ctx):
 
 def eval_touch_command(ctx, targets=()):
     fn = ctx.index.func("gwf.plugins.touch:touch")
-    T, graph, hooks = _witness_graph(TOUCH_PROJECT)
+    T, graph, hooks = _witness_graph(ctx, TOUCH_PROJECT)
     events = []
     store = Obj("spec_hashes")
     hooks.update({
@@ -1564,7 +1661,7 @@ def eval_touch_command(ctx, targets=()):
     interp.max_depth = 30
     out = {"events": events, "raised": None}
     try:
-        interp.call(fn, (Obj("ctx", working_dir="/p", config={}, backend="B"), tuple(targets)))
+        call_command(ctx, interp, fn, (Obj("ctx", working_dir="/p", config={}, backend="B"), tuple(targets)))
     except Raised as exc:
         out["raised"] = exc.kind
     except Unsupported as exc:
@@ -1633,7 +1730,7 @@ def eval_run_command(ctx, targets=(), dry_run=False, states=None, stale=(), conf
     ("close-backend"), ("open-store"), ("close-store")."""
     fn = ctx.index.func("gwf.plugins.run:run")
     names = [n for n, d in RUN_PROJECT.items() if d is not None]
-    T = {n: Obj("target", name=n, options={}, spec="spec of " + n) for n in names}
+    T = {n: target_obj(ctx, name=n, options={}, spec="spec of " + n) for n in names}
     deps = {T[n]: {T[d] for d in RUN_PROJECT[n]} for n in names}
     dependents = {T[n]: {T[m] for m in names if n in RUN_PROJECT[m]} for n in names}
     graph = GraphTok(T[n] for n in names)
@@ -1682,7 +1779,7 @@ def eval_run_command(ctx, targets=(), dry_run=False, states=None, stale=(), conf
     interp.max_depth = 40
     out = {"events": events, "raised": None}
     try:
-        interp.call(fn, (Obj("ctx", working_dir="/p", config=cfg, backend="B"), tuple(targets), dry_run))
+        call_command(ctx, interp, fn, (Obj("ctx", working_dir="/p", config=cfg, backend="B"), tuple(targets), dry_run))
     except Raised as exc:
         out["raised"] = exc.kind
         out["detail"] = exc.detail
@@ -2247,7 +2344,7 @@ def eval_submit_ids(ctx):
         interp = PureInterp(ctx, hooks=hooks)
         obj = Obj("ops", working_dir=PROJ, log_mode="full", accounting_enabled=True, target_defaults={}, **{"__class__": ci})
         try:
-            out[cname] = (interp.call(m, (Obj("target", name="T", options={}, spec="x", working_dir="/w"), []), {}, self_obj=obj), m)
+            out[cname] = (interp.call(m, (target_obj(ctx, name="T", options={}, spec="x", working_dir="/w"), []), {}, self_obj=obj), m)
         except (Raised, Unsupported) as exc:
             out[cname] = (f"<{type(exc).__name__}: {exc}>", m)
     return out
@@ -2313,7 +2410,7 @@ def cached_fs_witness(ctx):
 def eval_status_command(ctx, status=(), endpoints=False, fmt="default", targets=(), states=None, stale=()):
     fn = ctx.index.func("gwf.plugins.status:status")
     names = [n for n, d in RUN_PROJECT.items() if d is not None]
-    T = {n: Obj("target", name=n, options={}, spec="spec of " + n, order=i) for i, n in enumerate(names)}
+    T = {n: target_obj(ctx, name=n, options={}, spec="spec of " + n, order=i) for i, n in enumerate(names)}
     deps = {T[n]: {T[d] for d in RUN_PROJECT[n]} for n in names}
     dependents = {T[n]: {T[m] for m in names if n in RUN_PROJECT[m]} for n in names}
     graph = GraphTok(T[n] for n in names)
@@ -2352,7 +2449,7 @@ def eval_status_command(ctx, status=(), endpoints=False, fmt="default", targets=
     interp.max_depth = 40
     out = {"events": events, "lines": lines, "raised": None}
     try:
-        interp.call(fn, (Obj("ctx", working_dir="/p", config={}, backend="B"), tuple(status), endpoints, fmt, tuple(targets)))
+        call_command(ctx, interp, fn, (Obj("ctx", working_dir="/p", config={}, backend="B"), tuple(status), endpoints, fmt, tuple(targets)))
     except Raised as exc:
         out["raised"] = exc.kind
         out["detail"] = exc.detail
@@ -2421,7 +2518,7 @@ def eval_workflow_api(ctx):
 
     def construct(cls, args, kwargs):
         if cls.name == "Target":
-            t = Obj("target", **dict(kwargs))
+            t = target_obj(ctx, **dict(kwargs))
             if args:
                 t._positional = args
             made.append(t)
@@ -2500,7 +2597,7 @@ def eval_workflow_map(ctx, name=None, inputs=("a", ("b", "c"), {"x": "d"})):
 
     def construct(cls, args, kwargs):
         if cls.name == "Target":
-            t = Obj("target", **dict(kwargs))
+            t = target_obj(ctx, **dict(kwargs))
             made.append(t)
             return t
         if cls.name == "TargetList":
